@@ -7,6 +7,8 @@ CONSTANTS
   PB = 1
   BCmds = {"read"}
   BObjs = {"x"}
+  HC = 1
+  PC = 3
   LimPlan = 2
   LimR = 1
   SetR = 2
